@@ -49,7 +49,7 @@ let part1 op ps args =
      | "init.uint32" | "init.uint16" -> elt (Model.init_uint32 f a.(0))
      | "init.longlong" -> elt (Model.init_longlong f a.(0))
      | "init.ulonglong" -> elt (Model.init_ulonglong f a.(0))
-     | "convert.u32" | "convert.i32" | "convert.i64" | "convert.u64" | "convert.double" | "convert.integer" ->
+     | "convert.u32" | "convert.i32" | "convert.i64" | "convert.u64" | "convert.double" | "convert.integer" | "convert.float" | "convert.u16" ->
        s (Model.convert f a.(0))
      | "write" -> s (Model.write_value f a.(0))
      | "isUnit" -> s (Model.opt_b (Model.isUnit f a.(0)))
@@ -247,8 +247,9 @@ let part2 op ks ps args =
     | "maxpy" -> elt (Model.mr_maxpy k m a.(0) a.(1) a.(2))
     | "maxpyin" -> elt (Model.mr_maxpyin k m a.(0) a.(1) a.(2))
     | "init.none" -> elt Model.Z0
-    | "init.ruint" | "init.u64" | "init.i64" | "init.u32" | "init.i32" | "init.integer" | "read" -> elt (Model.mr_init k m a.(0))
-    | "convert.ruint" | "convert.integer" | "write" -> h (Model.mr_convert k m a.(0))
+    | "init.ruint" | "init.u64" | "init.i64" | "init.u32" | "init.i32" | "init.integer" | "read"
+    | "init.double" | "init.float" | "init.u16" | "init.i16" | "init.ull" | "init.ll" -> elt (Model.mr_init k m a.(0))
+    | "convert.ruint" | "convert.integer" | "write" | "convert.u32" | "convert.i64" | "convert.double" -> h (Model.mr_convert k m a.(0))
     | "convert.u64" -> h (Model.u64 (Model.mr_convert k m a.(0)))
     | "isUnit" -> bs (Model.mr_isUnit m a.(0))
     | "isZero" -> bs (Model.isZero a.(0))
@@ -283,7 +284,12 @@ let part2 op ks ps args =
     | _ -> "UNKNOWN-OP"
   end
 
+(* "@<how>:" = the way the ring object was obtained in the C++ (copy, assignment over another modulus, default-constructed then
+   assigned, module re-initialised, ...): in the model every such object is the record the constructor returns for p *)
+let strip_way op = if String.length op > 0 && op.[0] = '@' then (match String.index_opt op ':' with
+  | Some i -> String.sub op (i + 1) (String.length op - i - 1) | None -> op) else op
 let () = run_lines (fun toks ->
+  let toks = match toks with op :: rest -> strip_way op :: rest | [] -> [] in
   match toks with
   | op :: ks :: ps :: args when String.length op > 2 && op.[1] = '.' && (op.[0] = 'A' || op.[0] = 'I' || op.[0] = 'R') -> part2 op ks ps args
   | op :: ps :: args -> part1 op ps args
